@@ -23,6 +23,14 @@
 #include <vector>
 
 using namespace shark;
+// HypervolumeCalculatorMDHOY::stream is a template on the type of the point set and creates its two child sets
+// (pointsChildLow, pointsChildUp) as locals of that type: a set type that logs its size on destruction exposes the
+// recursion tree of the real code (query Y; compared with the model's stream_trace).
+static std::vector<std::size_t> g_hoyLog;
+struct HoyLogSet : std::vector<RealVector> {
+	HoyLogSet() {}
+	~HoyLogSet() { g_hoyLog.push_back(size()); }
+};
 typedef std::vector<KeyValuePair<double, std::size_t> > KV;
 
 static std::string num(double v) { char b[64]; std::snprintf(b, sizeof b, "%.17g", v); return b; }
@@ -52,18 +60,25 @@ int main(int argc, char** argv) {
 	std::size_t d = 0, k = 0;
 	RealVector ref;
 	std::vector<RealVector> pts;
+	bool haveLow = false; int hoySplit = 0; RealVector hoyLow;
 	while (std::getline(in, line)) {
 		std::istringstream is(line);
 		std::string cmd; if (!(is >> cmd)) { std::cout << "\n"; continue; }
 		if (cmd == "C") {
 			is >> query >> d >> k;
 			ref.resize(d); for (std::size_t i = 0; i < d; ++i) is >> ref(i);
-			pts.clear();
+			pts.clear(); haveLow = false;
 			std::cout << "C\n";
 		} else if (cmd == "p") {
 			RealVector p(d); for (std::size_t i = 0; i < d; ++i) is >> p(i);
 			pts.push_back(p);
 			std::cout << "p\n";
+		} else if (cmd == "l") {
+			is >> hoySplit;
+			hoyLow.resize(d); for (std::size_t i = 0; i + 1 < d; ++i) is >> hoyLow(i);
+			if (d) hoyLow(d - 1) = 0;
+			haveLow = true;
+			std::cout << "l\n";
 		} else if (cmd == "E") {
 			std::size_t n = pts.size();
 			std::size_t keff = std::min(k, n);
@@ -97,6 +112,34 @@ int main(int argc, char** argv) {
 					if (rows.empty()) o << "none";
 					return o.str(); }) : "-";
 				std::cout << "H disp=" << disp << " a2=" << a2 << " a3=" << a3 << " hoy=" << hoy << " wfg=" << wfg << " lim=" << lim << "\n";
+			} else if (query == "Y") {
+				// direct call of HypervolumeCalculatorMDHOY::stream; the case carries doubled values (half-integers are legal bounds)
+				if (!haveLow) { std::cout << "Y nolow\n"; continue; }
+				double scale = 1; for (std::size_t i = 0; i < d; ++i) scale *= 2;
+				RealVector low = hoyLow / 2.0, up = ref / 2.0;
+				double cover = ref(d - 1) / 2.0;
+				std::string st, tr;
+				st = guard([&] {
+					HypervolumeCalculatorMDHOY hv; hv.m_sqrtNoPoints = k;
+					g_hoyLog.clear();
+					double v;
+					{
+						HoyLogSet set; for (auto const& p : pts) set.push_back(p / 2.0);
+						v = hv.stream(low, up, set, hoySplit, cover);
+						std::ostringstream o;
+						for (std::size_t i = 0; i < g_hoyLog.size(); ++i) { if (i) o << ","; o << g_hoyLog[i]; }
+						if (g_hoyLog.empty()) o << "none";
+						tr = o.str();
+					}
+					return num(v * scale); });
+				std::string med = n ? guard([&] {
+					HypervolumeCalculatorMDHOY hv; std::vector<double> b; for (auto const& p : pts) b.push_back(p(0) / 2.0);
+					return num(2.0 * hv.getMedian(b, (int)b.size())); }) : "-";
+				std::string trel = n ? guard([&] {
+					HypervolumeCalculatorMDHOY hv; RealVector t(d, 0.0);
+					for (std::size_t i = 0; i + 1 < d; ++i) t(i) = std::max(low(i), std::min(up(i), pts[0](i) / 2.0));
+					return num(hv.computeTrellis(low, up, t) * scale / 2.0); }) : "-";
+				std::cout << "Y st=" << st << " tr=" << tr << " med=" << med << " trel=" << trel << "\n";
 			} else if (query == "K") {
 				if (n == 0) { std::cout << "K empty\n"; continue; }
 				HypervolumeContribution c;
